@@ -3,6 +3,7 @@ import InfluxQL.Model.PrintStmt
 import InfluxQL.Lemmas.Digits
 import InfluxQL.Lemmas.ParserTok
 import InfluxQL.Lemmas.StmtPieces
+import InfluxQL.Lemmas.StmtExprPieces
 import InfluxQL.Lemmas.IntLit
 import InfluxQL.Lemmas.RegexRoundTrip
 import InfluxQL.Lemmas.NumberRoundTrip
@@ -1666,6 +1667,134 @@ theorem dropRetentionPolicy_statement_print_parse (fuel : Nat) (s : PState) (nam
   obtain ⟨s', h2, b2⟩ := nameOnDb_print_parse fuel .parseDropRetentionPolicyStatement .dropRetentionPolicy
     (by simp [nameOnDbHandlers]) s1 name db k hex1 hex2 hk b1
   exact ⟨s', by rw [h1]; exact h2, b2⟩
+
+/-! ## statement families with expressions
+
+The families below contain a condition, a source list or fields. Their theorems have the shape of
+the ones above with two differences. (1) `ParseExpr` is modelled with a fuel argument, so the
+conclusion is a weakest precondition with the error alternative "out of fuel": the handler returns
+exactly the printed statement and stands before `k`, or the fuel given was too small (never the case
+at `fuelFor text`: `C04.parseStatement_fuel_suffices`; the non-vacuity examples run the handler in
+the kernel). (2) The parser ends `RT.Stand s' k`: before `k` with the token scanned there pushed
+back (how `ParseExpr` and the source parser leave it). The continuation is described by its first
+significant token: `Follow k stop` — `k` is the end of input, or starts with `)` / `,` / a blank and
+a token, and its first token is no binary operator and none of `stop` (the tokens that would
+continue the statement). Expressions are those of C03's class `Printable` (`RT.rtOK false`). -/
+
+/-! ### DELETE, DROP SERIES -/
+
+/-- What DELETE / DROP SERIES print after their keywords. -/
+def deleteLikeText (names : List Str) (c : Option Expr) : Str := fromText names ++ whereText c
+
+theorem deleteLike_print_partial (names : List Str) (c : Option Expr) (h : ∀ m ∈ names, m ≠ []) :
+    (Statement.deleteSeries (names.map nameSrc) c).print = tx "DELETE" ++ deleteLikeText names c ∧
+    (Statement.dropSeries (names.map nameSrc) c).print = tx "DROP SERIES" ++ deleteLikeText names c := by
+  have p1 : (Statement.deleteSeries (names.map nameSrc) c).print =
+      tx "DELETE" ++ clauseFrom (names.map nameSrc) ++ clauseWhere c := rfl
+  have p2 : (Statement.dropSeries (names.map nameSrc) c).print =
+      tx "DROP SERIES" ++ clauseFrom (names.map nameSrc) ++ clauseWhere c := rfl
+  rw [p1, p2, clauseFrom_names names h, clauseWhere_eq]
+  simp only [deleteLikeText, List.append_assoc, and_self]
+
+theorem parseDeleteLike_print (fuel : Nat) (checkRP : Bool) (s : PState) (names : List Str) (c : Option Expr) (k : Str)
+    (hex : ∀ m ∈ names, Expressible m) (hc : CondOK c) (hne : ¬ (c = none ∧ names = []))
+    (hk : Follow k [.FROM, .COMMA, .WHERE]) (hs : s.Before (deleteLikeText names c ++ k)) :
+    wp (parseDeleteLike fuel checkRP) s (fun r s' => r = (names.map nameSrc, c) ∧ RT.Stand s' k) (· = .fuel) := by
+  have hkw : Follow (whereText c ++ k) [.FROM, .COMMA] :=
+    Follow.opt (kwText_where c) (by decide +kernel) rfl (by decide) (hk.mono (by simp))
+  unfold deleteLikeText at hs
+  rw [List.append_assoc] at hs
+  unfold parseDeleteLike
+  cases names with
+  | nil =>
+    obtain ⟨T, hT, hneT⟩ := hkw.starts (t := .FROM) (by simp)
+    obtain ⟨lx, s1, h1, t1, st1, _⟩ := RT.scanIW_starts s _ T (by simpa [fromText] using hs.stand) hT
+    have hnf : ¬ lx.tok = .FROM := by rw [t1]; exact hneT
+    rw [wp_bind, wp_of_run_ok h1]
+    simp only [hnf, if_false, pure_bind]
+    rw [wp_bind, unscan_wp, wp_bind]
+    refine wp_mono (parseCondition_print fuel (unsc s1) c k hc (hk.mono (by simp)) st1) ?_ (fun _ h => h)
+    intro c' s2 ⟨hc', st2⟩
+    subst hc'
+    have : ¬ (c'.isNone = true ∧ True) := by
+      intro ⟨h, _⟩
+      cases c' with
+      | none => exact hne ⟨rfl, rfl⟩
+      | some e => cases h
+    rw [wp_ite, if_neg this, wp_pure]
+    exact ⟨rfl, st2⟩
+  | cons n names =>
+    have hs' : RT.Stand s ([' '] ++ (Token.FROM.str ++ (' ' :: (qi n ++ (moreNames names ++ (whereText c ++ k)))))) := by
+      simpa [fromText] using hs.stand
+    obtain ⟨lx, s1, h1, t1, _, b1⟩ := scanIW_stand s [' '] Token.FROM.str _ .FROM [] Gap.blank hs'
+      (scansAs_kw .FROM _ (by decide +kernel) (WordEnd.blank _))
+    obtain ⟨s2, h2, st2⟩ := parseSources_names s1 n names _ hex (hkw.mono (by simp)) b1
+    rw [wp_bind, wp_of_run_ok h1]
+    simp only [t1, if_true]
+    rw [wp_bind, wp_of_run_ok h2]
+    simp only [sourceRestriction_names, pure_bind]
+    rw [wp_bind]
+    refine wp_mono (parseCondition_print fuel s2 c k hc (hk.mono (by simp)) st2) ?_ (fun _ h => h)
+    intro c' s3 ⟨hc', st3⟩
+    subst hc'
+    have : ¬ (c'.isNone = true ∧ (n :: names).map nameSrc = []) := by simp
+    rw [wp_ite, if_neg this, wp_pure]
+    exact ⟨rfl, st3⟩
+
+/-- **Print → parse, DELETE / DROP SERIES** `[FROM m1, …, mn] [WHERE cond]` (at least one of the two
+clauses, as the parser demands). The handler returns the statement and stands before `k` — or the
+fuel given was too small (`C04.parseStatement_fuel_suffices`: never at `fuelFor`).
+
+Partial: the sources are plain measurement names (no database / retention policy — which the
+handlers reject anyway —, no regex), printed by `QuoteIdent`; the condition is in the class
+`Printable` of C03 (`RT.rtOK false`: binary operators over references, string / integer / boolean
+literals, parentheses, regex operands; no calls, number, duration literals, wildcards, and not
+the negated-operand trees of the open finding). The continuation `k` starts (after at most one
+blank) with a token that is no operator and none of FROM `,` WHERE; it may be the end of input. -/
+theorem deleteLike_print_parse_partial (fuel : Nat) (s : PState) (names : List Str) (c : Option Expr) (k : Str)
+    (hex : ∀ m ∈ names, Expressible m) (hc : CondOK c) (hne : ¬ (c = none ∧ names = []))
+    (hk : Follow k [.FROM, .COMMA, .WHERE]) (hs : s.Before (deleteLikeText names c ++ k)) :
+    wp (runHandler fuel .parseDeleteStatement) s
+      (fun st s' => st = .deleteSeries (names.map nameSrc) c ∧ RT.Stand s' k) (· = .fuel) ∧
+    wp (runHandler fuel .parseDropSeriesStatement) s
+      (fun st s' => st = .dropSeries (names.map nameSrc) c ∧ RT.Stand s' k) (· = .fuel) := by
+  constructor
+  · simp only [runHandler]
+    rw [wp_bind]
+    refine wp_mono (parseDeleteLike_print fuel false s names c k hex hc hne hk hs) ?_ (fun _ h => h)
+    intro r s' ⟨hr, st⟩
+    subst hr
+    exact ⟨rfl, st⟩
+  · simp only [runHandler]
+    rw [wp_bind]
+    refine wp_mono (parseDeleteLike_print fuel true s names c k hex hc hne hk hs) ?_ (fun _ h => h)
+    intro r s' ⟨hr, st⟩
+    subst hr
+    exact ⟨rfl, st⟩
+
+/-- Non-vacuity: `DELETE FROM cpu, "my m" WHERE host = 'a' AND (x > -1 OR y =~ /^b/)`. -/
+def exCond : Option Expr := some (.binary .AND (.binary .EQ (.varRef "host".toList .Unknown) (.string ['a']))
+  (.paren (.binary .OR (.binary .GT (.varRef ['x'] .Unknown) (.integer (-1)))
+    (.binary .EQREGEX (.varRef ['y'] .Unknown) (.regex "^b".toList)))))
+def exNames : List Str := ["cpu".toList, "my m".toList]
+def exDeleteText : Str := deleteLikeText exNames exCond
+
+section
+-- the examples state `wp` of concrete runs: keep the elaborator from evaluating them
+attribute [local irreducible] wp
+
+example : exDeleteText = " FROM cpu, \"my m\" WHERE host = 'a' AND (x > -1 OR y =~ /^b/)".toList := by decide +kernel
+
+example : wp (runHandler 200 .parseDeleteStatement) (PState.init exDeleteText [] [])
+    (fun st s' => st = .deleteSeries (exNames.map nameSrc) exCond ∧ RT.Stand s' [eofRune]) (· = .fuel) :=
+  (deleteLike_print_parse_partial 200 (PState.init exDeleteText [] []) exNames exCond [eofRune] (by decide +kernel)
+    (by decide +kernel) (by decide +kernel) (Follow.eof _ (by decide)) (init_before exDeleteText (by decide +kernel))).1
+end
+
+/-- … and the fuel suffices on this input. -/
+example : (match (runHandler 200 .parseDeleteStatement).run (PState.init exDeleteText [] []) with
+    | .ok _ => true
+    | .error _ => false) = true := by decide +kernel
 
 /-! ## passwords -/
 
